@@ -12,4 +12,6 @@ import CruxVerif.Props.C06
 #print axioms Props.C06.drop_is_contained
 #print axioms Props.C06.poll_keeps_own_slab
 #print axioms Props.C06.sibling_commands_unaffected_flat
+#print axioms Props.C06.running_a_command_never_strands_others
+#print axioms Props.C06.RunInv_nonvacuous
 #print axioms Props.C06.abort_only_flags_and_wakes
